@@ -11,7 +11,7 @@ SPEC = {
         "Partial. Proved for every number/size of sources and overrides (Props/C39.lean): the reading order places each "
         "profile file right after its file (C39_profile_adjacent) and is the documented five files without XDG "
         "(C39_documented_order); single-valued options: last statement in reading order wins, -o beats files, default iff "
-        "unset (C39_single_last_wins / _override_wins / _default_iff_unset); list options: values after the last blank, "
+        "unset (C39_single_last_wins / _override_wins / _default_iff_unset; combined with the reading order in C39_highest_priority_source_wins); list options: values after the last blank, "
         "accumulation across files, -o replaces the list, default when unset (C39_list_after_last_blank / _accumulates / "
         "C39_override_replaces_list / C39_list_default_when_unset); override order irrelevant for distinct fields. "
         "The property as stated is VIOLATED in five narrow classes, each with a Lean witness, a corpus witness and a "
